@@ -78,14 +78,19 @@ struct Outcome {
 
 enum Fmt { JSON, MSGPACK };
 
+// the two options may be given in either order: (Filter, NestingLimit) or (NestingLimit, Filter)
+static bool g_limitFirst = false;
+
 template <class Input>
 static DeserializationError call(Fmt fmt, JsonDocument& doc, Input&& in, bool useFilter, JsonDocument& filter,
                                  int lim) {
   using namespace DeserializationOption;
   if (fmt == JSON) {
+    if (useFilter && g_limitFirst) return deserializeJson(doc, in, NestingLimit((uint8_t)lim), Filter(filter.as<JsonVariantConst>()));
     if (useFilter) return deserializeJson(doc, in, Filter(filter.as<JsonVariantConst>()), NestingLimit((uint8_t)lim));
     return deserializeJson(doc, in, NestingLimit((uint8_t)lim));
   }
+  if (useFilter && g_limitFirst) return deserializeMsgPack(doc, in, NestingLimit((uint8_t)lim), Filter(filter.as<JsonVariantConst>()));
   if (useFilter) return deserializeMsgPack(doc, in, Filter(filter.as<JsonVariantConst>()), NestingLimit((uint8_t)lim));
   return deserializeMsgPack(doc, in, NestingLimit((uint8_t)lim));
 }
@@ -94,9 +99,11 @@ static DeserializationError callSized(Fmt fmt, JsonDocument& doc, Ptr p, size_t 
                                       int lim) {
   using namespace DeserializationOption;
   if (fmt == JSON) {
+    if (useFilter && g_limitFirst) return deserializeJson(doc, p, n, NestingLimit((uint8_t)lim), Filter(filter.as<JsonVariantConst>()));
     if (useFilter) return deserializeJson(doc, p, n, Filter(filter.as<JsonVariantConst>()), NestingLimit((uint8_t)lim));
     return deserializeJson(doc, p, n, NestingLimit((uint8_t)lim));
   }
+  if (useFilter && g_limitFirst) return deserializeMsgPack(doc, p, n, NestingLimit((uint8_t)lim), Filter(filter.as<JsonVariantConst>()));
   if (useFilter) return deserializeMsgPack(doc, p, n, Filter(filter.as<JsonVariantConst>()), NestingLimit((uint8_t)lim));
   return deserializeMsgPack(doc, p, n, NestingLimit((uint8_t)lim));
 }
@@ -106,8 +113,29 @@ static const char* KINDS[] = {"cstr", "sized", "std::string", "istream", "reader
 #ifdef ARDUINO
                               "ArduinoString", "ArduinoStream", "flash", "flash-sized",
 #endif
+                              "istream-chunked",
 };
 static const int NKINDS = sizeof KINDS / sizeof *KINDS;
+static const int K_CHUNKED = NKINDS - 1;
+
+// a std::istream whose buffer hands the input out a few bytes at a time (a socket, a pipe, a hand-written
+// streambuf): in_avail() is small, multi-byte reads straddle refills
+struct ChunkBuf : std::streambuf {
+  const std::string* d;
+  size_t next = 0, chunk;
+  std::vector<char> buf;
+  ChunkBuf(const std::string& s, size_t c) : d(&s), chunk(c), buf(c) { setg(buf.data(), buf.data(), buf.data()); }
+  int_type underflow() override {
+    if (gptr() < egptr()) return traits_type::to_int_type(*gptr());
+    if (next >= d->size()) return traits_type::eof();
+    size_t n = d->size() - next < chunk ? d->size() - next : chunk;
+    memcpy(buf.data(), d->data() + next, n);
+    next += n;
+    setg(buf.data(), buf.data(), buf.data() + n);
+    return traits_type::to_int_type(*gptr());
+  }
+  size_t consumed() const { return next - (size_t)(egptr() - gptr()); }
+};
 
 #ifdef ARDUINO
 class FakeStream : public Stream {
@@ -166,6 +194,13 @@ static Outcome runKind(Fmt fmt, int kind, const std::string& bytes, bool useFilt
   if (kind == 10 && fmt == MSGPACK && bytes.find('\0') != std::string::npos) { out.code = "skip"; return out; }
 #endif
   if (fmt == MSGPACK && zeroTerminated) { out.code = "skip"; return out; }
+  if (kind == K_CHUNKED) {
+    static const size_t sizes[] = {1, 3, 7, 2};
+    ChunkBuf cb(bytes, sizes[bytes.size() % 4]);
+    std::istream is(&cb);
+    err = call(fmt, doc, is, useFilter, filter, lim);
+    out.consumed = (long)cb.consumed();
+  }
   switch (kind) {
     case 0: {  // zero-terminated: exact-size heap copy up to the first NUL
       size_t n = bytes.find('\0') == std::string::npos ? bytes.size() : bytes.find('\0');
@@ -439,6 +474,7 @@ int main(int argc, char** argv) {
     std::string bytes;
     for (auto& x : c.at("inp").a) bytes += char((unsigned char)x.i);
     int lim = (int)c.num("lim");
+    g_limitFirst = idx % 2 == 1;
     if (faults) {
       if (!c.has("session")) { faultCase(fmt, c, bytes, idx, faultOut, maxk, fevents, ffired); ran++; }
       idx++;
@@ -451,9 +487,11 @@ int main(int argc, char** argv) {
       bool sFilter = c.has("f") && c.at("f").str("t") != "T";
       JsonDocument nofilter;
       if (sFilter) bv::buildFilter(c.at("f"), nofilter.to<JsonVariant>());
-      for (int kind = 0; kind < 3 && problem.empty(); kind++) {
+      for (int kind = 0; kind < 4 && problem.empty(); kind++) {
         std::istringstream is(bytes);
         CountingReader r1(bytes, 1), r7(bytes, 7);
+        ChunkBuf cb(bytes, 1 + (size_t)(idx % 5));
+        std::istream cs(&cb);
         long before = 0;
         for (size_t k = 0; k < calls.size() && problem.empty(); k++) {
           JsonDocument doc;
@@ -465,9 +503,10 @@ int main(int argc, char** argv) {
             is.clear();
             now = atEnd ? (long)bytes.size() : (long)is.tellg();
           } else if (kind == 1) { e = call(fmt, doc, r1, sFilter, nofilter, lim); now = (long)r1.pos; }
-          else { e = call(fmt, doc, r7, sFilter, nofilter, lim); now = (long)r7.pos; }
+          else if (kind == 2) { e = call(fmt, doc, r7, sFilter, nofilter, lim); now = (long)r7.pos; }
+          else { e = call(fmt, doc, cs, sFilter, nofilter, lim); cs.clear(); now = (long)cb.consumed(); }
           evals++;
-          std::string where = " [session call " + std::to_string(k) + " kind=" + (kind == 0 ? "istream" : kind == 1 ? "reader1" : "reader7") + "]";
+          std::string where = " [session call " + std::to_string(k) + " kind=" + (kind == 0 ? "istream" : kind == 1 ? "reader1" : kind == 2 ? "reader7" : "istream-chunked") + "]";
           if (calls[k].str("code") != errName(e)) problem = "code expected=" + calls[k].str("code") + " got=" + errName(e) + where;
           else if (calls[k].str("code") == "Ok") {
             std::string d = bv::compare(doc.as<JsonVariantConst>(), calls[k].at("v"), o.boolean("nan"), o.boolean("inf"), false);
